@@ -21,13 +21,14 @@ from .srcmodel import AnalysisError
 
 
 class Mutant:
-    def __init__(self, mid, file, old, new, rule=None, why=""):
+    def __init__(self, mid, file, old, new, rule=None, why="", first=False):
         self.id = mid
         self.file = file
         self.old = old
         self.new = new
         self.rule = rule
         self.why = why
+        self.first = first  # replace only the first occurrence of a repeated anchor (data files)
 
 
 def _link_tree(src_root, dst_root, replace=None):
@@ -75,9 +76,10 @@ def _run_mutant(args):
     news = m["new"] if isinstance(m["new"], (list, tuple)) else [m["new"]]
     new_text = text
     for o, nw in zip(olds, news):
-        if new_text.count(o) != 1:
-            return m["id"], "stale", "anchor text occurs %d times: %r" % (new_text.count(o), o[:50])
-        new_text = new_text.replace(o, nw)
+        cnt = new_text.count(o)
+        if cnt != 1 and not (m.get("first") and cnt > 1):
+            return m["id"], "stale", "anchor text occurs %d times: %r" % (cnt, o[:50])
+        new_text = new_text.replace(o, nw, 1)
     if m["file"].endswith(".py"):
         try:
             compile(new_text, m["file"], "exec")
@@ -130,7 +132,7 @@ def run(prop, ctx):
     scratch = tempfile.mkdtemp(prefix="osaca_sa_selftest_")
     results = {"mutants": len(muts), "caught": 0, "stale": 0, "missed": 0, "details": []}
     try:
-        jobs = [(prop, repo_root, scratch, dict(id=m.id, file=m.file, old=m.old, new=m.new)) for m in muts]
+        jobs = [(prop, repo_root, scratch, dict(id=m.id, file=m.file, old=m.old, new=m.new, first=m.first)) for m in muts]
         with ProcessPoolExecutor(max_workers=min(16, max(1, len(jobs) + 1))) as ex:
             norm_future = ex.submit(_run_normalised, (prop, repo_root, scratch))
             outs = list(ex.map(_run_mutant, jobs))
